@@ -418,6 +418,56 @@ def rules(rep, m):
                             where=m.rel(loc(x)))
                 r7.fail()
 
+    # R-C16-8 ------------------------------------------------------------
+    r8 = rep.rule("R-C16-8", "tail of the normal ziggurat (Marsaglia): the candidate x that the acceptance test 2z > x*x examines "
+                  "is the one that is returned (shifted by the tail start, with the sign) - scaling it after the test makes the "
+                  "test judge another density, and the tail collapses toward its start", floor=1)
+    nh = m.need("cmi_random_nor_not_hot")
+    nx = FuncCtx(m, nh)
+    tails = []
+    for lp in walk(nh.body):
+        if lp["kind"] not in ("DoStmt", "WhileStmt", "ForStmt"):
+            continue
+        cnd = kids(lp)[1] if lp["kind"] == "DoStmt" else kids(lp)[0] if lp["kind"] == "WhileStmt" else kids(lp)[2]
+        sq = [y for y in walk(cnd) if y.get("kind") == "BinaryOperator" and y.get("opcode") == "*" and
+              strip(kids(y)[0], casts=True).get("kind") == "DeclRefExpr" and strip(kids(y)[1], casts=True).get("kind") == "DeclRefExpr" and
+              strip(kids(y)[0], casts=True)["ref"]["id"] == strip(kids(y)[1], casts=True)["ref"]["id"]]
+        if sq:
+            tails.append((lp, strip(kids(sq[0])[0], casts=True)["ref"]))
+    for lp, vref in tails:
+        par = [a_ for a_ in inv.enclosing_chain(nh, lp) if a_["kind"] == "CompoundStmt"][-1]
+        after = kids(par)[kids(par).index(lp) + 1:]
+        rets = [y for s_ in after for y in walk(s_) if y["kind"] == "ReturnStmt" and kids(y)]
+        r8.instance("%s: candidate '%s' tested in the loop at line %s, returned as %s" % (nh.name, vref["name"], lp.get("line"),
+                                                                                       [render(kids(y)[0])[:60] for y in rets]))
+        if not rets:
+            raise AnalysisBroken("%s: no return after the tail's rejection loop" % nh.name)
+        bad = None
+        for rt in rets:
+            uses = [y for y in walk(kids(rt)[0]) if y["kind"] == "DeclRefExpr" and y["ref"]["id"] == vref["id"]]
+            if not uses:
+                bad = "the value returned does not contain the accepted candidate '%s'" % vref["name"]
+            for u in uses:
+                chain = inv.enclosing_chain(nh, u)
+                for anc in chain[chain.index(rt):] if rt in chain else chain:
+                    if anc["kind"] == "BinaryOperator" and anc.get("opcode") in ("*", "/"):
+                        other = [z for z in kids(anc) if not any(y is u for y in walk(z))]
+                        for o_ in other:
+                            o0 = strip(o_, casts=True)
+                            unit = (o0["kind"] == "DeclRefExpr" and ("int" in (o0.get("type") or "") or o0["ref"]["name"].startswith("sign"))) or \
+                                (float_value(o0) in (1.0, -1.0) if o0["kind"] in ("IntegerLiteral", "FloatingLiteral") else False)
+                            if not unit and anc.get("opcode") == "*" or (anc.get("opcode") == "/" and any(y is u for y in walk(kids(anc)[0])) and not unit):
+                                bad = "the accepted candidate '%s' is rescaled by '%s' after the test" % (vref["name"], render(o0)[:50])
+        if bad:
+            rep.finding(r8, nh.name, "tail:accepted-value-rescaled", "%s: %s: the acceptance test judged another value than the one "
+                        "returned, so the tail beyond the start point no longer follows the normal density" % (nh.name, bad),
+                        where=m.rel(loc(lp)))
+            r8.fail()
+        else:
+            r8.ok()
+    if not tails:
+        raise AnalysisBroken("%s: the tail's rejection loop (test on x*x) was not found" % nh.name)
+
 
 def run(tier="quick"):
     models = common.load_models(tier)
